@@ -1,3 +1,98 @@
+import json
+import os
+import time
+
+
+def _release_round(pid, cfg, tier, seed):
+    """Second profile: the same harness built in release (overflow checks OFF, debug assertions OFF) runs the corpus and the same
+    seeded cases; its observations are judged by the same extracted judge and compared exactly with the model.  Arithmetic that
+    the dev profile turns into a panic wraps here (the former `2 * min` of the improvement phase)."""
+    import glob
+    import verif_lib as V
+    os.makedirs(os.path.join(V.RUN, pid), exist_ok=True)
+    log = open(os.path.join(V.RUN, pid, "%s-release.log" % tier), "w")
+    with V.BuildLock("cargo"):
+        rc, out = V.sh("timeout 3000 cargo build --offline --release --bin c08 2>&1", cwd=V.HARNESS, timeout=3100)
+    log.write("== cargo build --release --bin c08 (rc=%d)\n%s\n" % (rc, out[-3000:]))
+    if rc != 0:
+        return ["the release-profile harness no longer builds against /repo/rust"], [], {}
+    hx = os.path.join(V.HARNESS, "target", "release", "c08")
+    dx = V.driver_exe(cfg, pid)
+    env = dict(V.ENV); env["VERIF_SEED"] = str(seed); env["VERIF_TIER"] = tier
+    known = {k["class"] for k in V.load_known() if k.get("property") == pid and k.get("status") == "known"}
+    recs = []
+    rounds = [("gen", None)] + [("run", cf) for cf in sorted(glob.glob(os.path.join(V.ROOT, "corpus", pid, "*.case")))]
+    tmo = cfg.get("gen_timeout", 1500)
+    for mode, cf in rounds:
+        d = os.path.join(V.RUN, pid, tier, "release-" + (os.path.basename(cf) if cf else "gen"))
+        os.makedirs(d, exist_ok=True)
+        if mode == "gen":
+            rc, out = V.sh("%s gen %s" % (hx, d), cwd=V.ROOT, timeout=tmo, env=env)
+        else:
+            V.sh("cp %s %s/cases.txt" % (cf, d))
+            rc, out = V.sh("%s run %s/cases.txt %s/impl.txt" % (hx, d, d), cwd=V.ROOT, timeout=tmo, env=env)
+        if rc != 0:
+            return ["release harness exited with %d: %s" % (rc, out[-300:])], [], {}
+        rc, out = V.sh("ulimit -s unlimited 2>/dev/null; %s %s/cases.txt %s/impl.txt > %s/model.txt" % (dx, d, d, d), cwd=V.ROOT, timeout=tmo, env=env)
+        if rc != 0:
+            return ["model driver exited with %d on the release observations" % rc], [], {}
+        cases, order = V.read_lines(os.path.join(d, "cases.txt"))
+        impl, _ = V.read_lines(os.path.join(d, "impl.txt"))
+        model, _ = V.read_lines(os.path.join(d, "model.txt"))
+        for idx in order:
+            m, _, v = model.get(idx, "driver-missing\tna").partition("\t")
+            recs.append({"idx": idx, "case": cases[idx], "impl": impl.get(idx, "harness-missing"), "model": m.strip(),
+                         "verdict": v.strip() or "na", "src": "release:" + (os.path.basename(cf) if cf else "gen:%s" % seed)})
+    bad = [r for r in recs if (r["verdict"].startswith("fails") and (r["verdict"].partition(":")[2] or "-") not in known)]
+    dis = [r for r in recs if not V.agree(cfg, r)]
+    log.write("release: %d cases, %d spec failures, %d disagreements\n" % (len(recs), len(bad), len(dis)))
+    log.close()
+    return [], bad + [r for r in dis if r not in bad], {"release_evaluations": len(recs), "release_spec_failures": len(bad), "release_disagreements": len(dis)}
+
+
+def _fresh_library_build():
+    """cargo keys its rebuilds on mtimes; when the `repo` symlink is pointed at another tree (or back) whose files are older, the
+    harness would silently keep the previous library.  Remember which tree was compiled and clean the library crate when it changed."""
+    import hashlib
+    import verif_lib as V
+    real = os.path.realpath(os.path.join(V.ROOT, "repo"))
+    rc, head = V.sh("git -C %s rev-parse HEAD; git -C %s status --porcelain -- rust/src; git -C %s diff -- rust/src | sha256sum" % (real, real, real))
+    stamp = real + "\n" + hashlib.sha256(head.encode()).hexdigest()
+    path = os.path.join(V.HARNESS, "target", ".c08-library-stamp")
+    old = open(path).read() if os.path.exists(path) else None
+    if old is not None and old != stamp:
+        with V.BuildLock("cargo"):
+            V.sh("cargo clean --offline -p cardano-serialization-lib; cargo clean --offline --release -p cardano-serialization-lib", cwd=V.HARNESS)
+    os.makedirs(os.path.dirname(path), exist_ok=True)
+    open(path, "w").write(stamp)
+
+
+def _custom_check(pid, cfg, tier, seed):
+    import verif_lib as V
+    t0 = time.time()
+    _fresh_library_build()
+    rc = V.check(pid, cfg, tier, seed)              # dev profile (overflow checks on): proofs + correspondence + evidence
+    breaks, bad, stats = _release_round(pid, cfg, tier, seed)
+    evp = os.path.join(V.EVID, "%s.json" % pid)
+    ev = json.load(open(evp))
+    ev["coverage"].update(stats)
+    ev["coverage"]["profiles"] = ["dev (overflow-checks, debug-assertions)", "release (no overflow checks)"]
+    if breaks or bad:
+        hdr = ["RELEASE PROFILE (overflow checks off): " + b for b in breaks]
+        if bad:
+            hdr.append("release-profile harness: property fails / model disagrees on %d cases (first ones below)" % len(bad))
+        path = V.write_replay(pid, seed, "release-fail", bad[:5], hdr)
+        if rc == 0:
+            print("VIOLATION property=%s replay=%s%s" % (pid, path, "" if bad else " no-failing-input-found"))
+        ev["violations"] = 1
+        rc = 1
+    ev["wall_s"] = round(time.time() - t0, 1)
+    json.dump(ev, open(evp, "w"), indent=1)
+    print("%s %s seed=%s release profile: cases %s, spec failures %s, disagreements %s"
+          % (pid, tier, seed, stats.get("release_evaluations", 0), stats.get("release_spec_failures", "-"), stats.get("release_disagreements", "-")))
+    return rc
+
+
 def _nontrivial(rec):
     # non-trivial = the model ran a selection that added at least one input to the builder (success or not)
     m = rec["model"].split(" ")
@@ -19,27 +114,30 @@ def _compare(rec):
 
 
 CFG = {
+    "custom_check": _custom_check,
     "level": "proof",
     "level_text": "Coq proofs (closed under the global context) about an executable Gallina model of TransactionBuilder::add_inputs_from "
                   "(the four CIP-2 strategies, cip2_largest_first_by, cip2_random_improve_by phases 1-2 with the available / relevant / "
                   "associated index bookkeeping, the final insertion loop, the phase-3 fee top-up, the 'at least one input' pre-step, the "
-                  "input map keyed by outpoint): for ALL offered lists, builder contents, strategies and ALL sequences of random draws "
-                  "(explicit argument of the model = every RNG outcome), with min_fee / fee_for_input arbitrary functions, success implies "
-                  "that the added inputs are distinct members of the offered list, the previous inputs are unchanged and the actual inputs "
-                  "cover outputs + deposits + donation + fee in lovelace and in every asset outside the known class C08-burn-not-covered; "
+                  "filter on offered UTxOs already present, the asset guard, the input map keyed by outpoint, and the fee functions under "
+                  "every fee request): for ALL offered lists (repeated and already-present outpoints included), builder contents, strategies "
+                  "and ALL sequences of random draws (explicit argument of the model = every RNG outcome), with min_fee / fee_for_input "
+                  "arbitrary functions, success implies that the added inputs are distinct members of the offered list, the previous inputs "
+                  "are unchanged and the actual inputs cover outputs + deposits + burn + donation + fee in lovelace and in EVERY asset (no "
+                  "known class left); for the builder's own fee functions the fee covered is min_fee() of the resulting builder; "
                   "largest-first adds in non-increasing order, stops at the first covering prefix and reports insufficiency only when all "
-                  "offered UTxOs do not suffice. Three probe-confirmed defects (swap bookkeeping, duplicate outputs, pre-step fee) are refuted "
-                  "by witnesses on the legacy variants of the model and repaired in /repo. The model is tied to the compiled code by an exact "
-                  "differential run under the scripted RNG of hook H1.",
-    "level_note": "Trusted: Coq kernel; the hand-written model (tied by correspondence on the generated cases only); min_fee / fee_for_input "
-                  "are opaque: theorems hold for arbitrary functions, the check feeds the model the answers of the real builder (public API) "
-                  "for exactly the builder states the model visits; C08_sound_min_fee assumes fee additivity (fee_for_input = difference of "
-                  "two min_fee, its definition) as an explicit premise; premises: distinct outpoints in offered + present inputs, values well "
-                  "formed (sorted maps, quantities < 2^64: what the public API builds); pre-existing inputs are regular (key / Byron) inputs; "
-                  "hook H1 (scripted gen_range) + extraction (ExtrOcamlBasic) + OCaml/Rust glue. No axioms.",
-    "theorems": ["C08_sound", "C08_sound_min_fee", "C08_largest_first_order", "C08_largest_first_minimal", "C08_largest_first_complete",
+                  "offered UTxOs do not suffice (or an asset it does not select for is uncovered). Seven probe-confirmed defects are refuted "
+                  "by witnesses on single-fault variants of the model and repaired in /repo. The model is tied to the compiled code, in the "
+                  "dev and in the release profile, by an exact differential run under the scripted RNG of hook H1.",
+    "level_note": "Trusted: Coq kernel; the hand-written model (tied by correspondence on the generated cases only); min_fee is opaque "
+                  "(theorems hold for arbitrary functions; the check feeds the model the answers of the real builder for exactly the builder "
+                  "states the model visits and verifies on every entry that fee_for_input is the difference of two min_fee()); premises: the "
+                  "builder's present inputs are a map (one entry per outpoint) and regular inputs, values well formed (sorted maps, quantities "
+                  "< 2^64: what the public API builds); hook H1 (scripted gen_range) + extraction (ExtrOcamlBasic) + OCaml/Rust glue. No axioms.",
+    "theorems": ["C08_sound", "C08_sound_min_fee", "C08_sound_fee_model", "C08_largest_first_order", "C08_largest_first_minimal", "C08_largest_first_complete",
                  "C08_swap_bookkeeping_refuted", "C08_duplicate_outputs_refuted", "C08_prestep_fee_refuted",
-                 "C08_burn_not_covered_refuted", "C08_judge_sound"],
+                 "C08_improve_overflow_refuted", "C08_offered_overlap_refuted", "C08_burn_not_covered_refuted",
+                 "C08_fee_placeholder_refuted", "C08_judge_sound"],
     "allowed_axioms": [],
     "compare": _compare,
     "nontrivial": _nontrivial,
@@ -49,11 +147,11 @@ CFG = {
             "amounts, shared and distinct key addresses, occasional reward-address UTxO), 0-2 present inputs, 0-3 outputs with exact "
             "duplicates, multi-asset families (4 assets over 3 mint policies, Some(empty) multiassets), withdrawals, certificate deposit, "
             "donation, mint and burn, pre-step boundary family (implicit input = outputs + min_fee + delta, last UTxO worth about its fee), "
-            "insufficient funds, duplicate outpoints (outside the premises: verdict na); every scenario of a random strategy is run with "
+            "insufficient funds, repeated outpoints and offered UTxOs already in the builder, fee requests (set_min_fee around / below / above the initial minimum fee, set_fee); every scenario of a random strategy is run with "
             "several scripts (empty, short, long, edge values), plus ALL outcomes (depth-first enumeration of the draw tree through H1's "
             "draw log) of small scenarios (quick: 6 scenarios <= 5 UTxOs, thorough: 120 scenarios <= 6 UTxOs, capped per scenario); the "
             "result compared exactly = status (ok / err:insufficient / err:other / panic), the outpoints in the builder afterwards (also "
-            "after a failure), get_explicit_input, min_fee() of the resulting builder; non-trivial = distinct case in which the model "
+            "after a failure), get_explicit_input, min_fee() of the resulting builder, for LargestFirst the outpoint added last and min_fee() of the builder without it; every case runs in the dev and in the release profile; non-trivial = distinct case in which the model "
             "added at least one input",
     "trusted_base": [
         "oracle protocol: the harness asks the extracted model (c08_driver serve) which min_fee / fee_for_input entry it needs next and "
@@ -64,13 +162,10 @@ CFG = {
         "enterprise key address; output keys (Ord-equality classes of TransactionOutput) are computed with the library's own Ord",
     ],
     "assumptions": [
-        "offered outpoints are pairwise distinct and distinct from the inputs already in the builder (distinct_outpoints); an offered UTxO "
-        "repeating a present outpoint is counted twice by the code (observation O1 in notes/design/C08.md), verdict na",
+        "the inputs already in the builder are a map (pre_distinct) of regular inputs; nothing is assumed about the offered list",
         "values are well formed (value_wf): strictly sorted asset maps, quantities < 2^64",
-        "fee_additive (only C08_sound_min_fee): min_fee(builder + u) = min_fee(builder) + fee_for_input(builder, u); validated on every "
-        "case through the comparison of min_fee() of the resulting builder",
-        "known class excluded from the asset clause: C08-burn-not-covered (strategy <> LargestFirstMultiAsset and a positive burn)",
-        "debug-profile arithmetic: `2 * min` / `3 * min` in phase 2 panic on u64 overflow (output >= 2^64/3 lovelace), modelled as Panicked",
+        "fee_additive (only C08_sound_min_fee; discharged for the builder's fee functions in C08_sound_fee_model and verified on every "
+        "oracle entry of every case: fee_for_input(S, u) = min_fee(S + u) - min_fee(S))",
     ],
     "explanation": "The quantification over the list of draws in C08_sound is the quantification over every outcome of the thread RNG, which no "
                    "test run can give; the correspondence run ties the model to the compiled code on seeded scenarios x scripts through hook H1 "
